@@ -51,6 +51,18 @@ fn get_pt<'a>(pool: &'a Pool, name: &str) -> Option<&'a Plaintext> {
 }
 
 /// run the three API forms of a ciphertext-producing operation and compare them
+thread_local! {
+    /// previous content of the destination slot: the destination-argument forms are handed a used object
+    static PRIOR_CT: std::cell::RefCell<Option<Ciphertext>> = std::cell::RefCell::new(None);
+    static PRIOR_PT: std::cell::RefCell<Option<Plaintext>> = std::cell::RefCell::new(None);
+}
+fn prior_ct() -> Ciphertext {
+    PRIOR_CT.with(|p| p.borrow().clone()).unwrap_or_else(Ciphertext::new)
+}
+fn prior_pt() -> Plaintext {
+    PRIOR_PT.with(|p| p.borrow().clone()).unwrap_or_else(Plaintext::new)
+}
+
 fn forms_ct(
     new: impl FnOnce() -> Ciphertext,
     dest: impl FnOnce(&mut Ciphertext),
@@ -58,7 +70,7 @@ fn forms_ct(
 ) -> StepRes {
     let r_new = guarded(new);
     let r_dest = guarded(|| {
-        let mut d = Ciphertext::new();
+        let mut d = prior_ct();
         dest(&mut d);
         d
     });
@@ -102,7 +114,7 @@ fn forms_pt(
 ) -> StepRes {
     let r_new = guarded(new);
     let r_dest = guarded(|| {
-        let mut d = Plaintext::new();
+        let mut d = prior_pt();
         dest(&mut d);
         d
     });
@@ -210,7 +222,9 @@ fn corrupt(s: &Suite, c: &Ciphertext, f: &str) -> Ciphertext {
 
 /// Execute one specification action against the real library.  Returns None when an operand handle
 /// has the wrong kind for the action (the specification leaves those unconstrained).
-pub fn exec_step(s: &Suite, cfg: &Cfg, pool: &Pool, act: &Value) -> Option<StepRes> {
+pub fn exec_step(s: &Suite, cfg: &Cfg, pool: &Pool, act: &Value, dst: &str) -> Option<StepRes> {
+    PRIOR_CT.with(|p| *p.borrow_mut() = get_ct(pool, dst).cloned());
+    PRIOR_PT.with(|p| *p.borrow_mut() = get_pt(pool, dst).cloned());
     let op = act["op"].as_str().unwrap();
     let ev = &s.evaluator;
     let a_name = act["a"].as_str().unwrap_or("");
@@ -230,12 +244,12 @@ pub fn exec_step(s: &Suite, cfg: &Cfg, pool: &Pool, act: &Value) -> Option<StepR
                 // encryption is randomised, so the forms cannot be compared byte-wise: each form is its own mode
                 "pk" => single(guarded(|| Obj::Ct(s.encryptor.encrypt_new(p)))),
                 "pkd" => single(guarded(|| {
-                    let mut d = Ciphertext::new();
+                    let mut d = prior_ct();
                     s.encryptor.encrypt(p, &mut d);
                     Obj::Ct(d)
                 })),
                 "sk" => single(guarded(|| {
-                    let mut d = Ciphertext::new();
+                    let mut d = prior_ct();
                     s.encryptor.encrypt_symmetric(p, &mut d);
                     Obj::Ct(d)
                 })),
@@ -248,12 +262,12 @@ pub fn exec_step(s: &Suite, cfg: &Cfg, pool: &Pool, act: &Value) -> Option<StepR
             match act["mode"].as_str().unwrap() {
                 "pk" => single(guarded(|| Obj::Ct(s.encryptor.encrypt_zero_new_at(&id)))),
                 "pkd" => single(guarded(|| {
-                    let mut d = Ciphertext::new();
+                    let mut d = prior_ct();
                     s.encryptor.encrypt_zero_at(&id, &mut d);
                     Obj::Ct(d)
                 })),
                 "sk" => single(guarded(|| {
-                    let mut d = Ciphertext::new();
+                    let mut d = prior_ct();
                     s.encryptor.encrypt_zero_symmetric_at(&id, &mut d);
                     Obj::Ct(d)
                 })),
@@ -695,7 +709,7 @@ pub fn replay_one(s: &Suite, cfg: &Cfg, beh: &Value) -> Value {
         if v == "any" {
             continue;
         }
-        let res = match exec_step(s, cfg, &pool, &st["act"]) {
+        let res = match exec_step(s, cfg, &pool, &st["act"], st["dst"].as_str().unwrap()) {
             Some(r) => r,
             None => return json!({"id": beh["id"], "status": "tool_error", "step": i, "detail": "operand handle of the wrong kind"}),
         };
